@@ -157,3 +157,31 @@ Example ex_twins :
   py_parse_tree 5 2 false [45;55;32;97;0;7;8] = None /\
   py_tree_cmp ([97], 16384) ([97;46;98], 33188) = OGt /\ rs_tree_cmp ([97], 16384) ([97;46;98], 33188) = OGt.
 Proof. vm_compute. repeat split; reflexivity. Qed.
+
+(* ---------- _count_blocks: the blocks partition the data ---------- *)
+Lemma split_blocks_concat : forall l cur n, concat (split_blocks l cur n) = rev cur ++ l.
+Proof.
+  induction l as [|c l IH]; intros cur n; cbn [split_blocks].
+  - destruct cur; cbn; [reflexivity|]. rewrite !app_nil_r. reflexivity.
+  - destruct ((c =? 10) || (n + 1 =? 64)).
+    + cbn [concat]. rewrite IH. cbn [rev app]. rewrite <- app_assoc. reflexivity.
+    + rewrite IH. cbn [rev]. rewrite <- app_assoc. reflexivity.
+Qed.
+
+Lemma count_blocks_partition data : concat (count_blocks data) = data.
+Proof. unfold count_blocks. rewrite split_blocks_concat. reflexivity. Qed.
+
+Lemma split_blocks_bounded : forall l cur n, n = zlen cur -> 0 <= n < 64 ->
+  Forall (fun b => 1 <= zlen b <= 64) (split_blocks l cur n).
+Proof.
+  induction l as [|c l IH]; intros cur n Hn Hb; cbn [split_blocks].
+  - destruct cur as [|x cur']; [constructor|]. constructor; [|constructor].
+    unfold zlen in *. rewrite rev_length. cbn [length] in *. lia.
+  - destruct ((c =? 10) || (n + 1 =? 64)) eqn:E.
+    + constructor; [|apply IH; [reflexivity|lia]].
+      unfold zlen in *. rewrite rev_length. cbn [length]. lia.
+    + apply IH; [rewrite zlen_cons; lia|lia].
+Qed.
+
+Lemma count_blocks_bounded data : Forall (fun b => 1 <= zlen b <= 64) (count_blocks data).
+Proof. apply split_blocks_bounded; [reflexivity|lia]. Qed.
